@@ -11,6 +11,15 @@
 #ifndef KSTEPS
 #define KSTEPS 2
 #endif
+#ifndef HSA
+#define HSA (-1) // histories: initial state of the first / second object (-1: symbolic, case-split over every state)
+#endif
+#ifndef HSB
+#define HSB (-1)
+#endif
+#ifndef FIRST
+#define FIRST (-1) // histories: op code of the first step (-1: symbolic)
+#endif
 extern "C" {
 Ledger vf_led;
 }
@@ -374,54 +383,50 @@ template <int NSTEP>
 static void v_hist(void* p, void* q, S sp, S sq)
 {
     if constexpr (NSTEP == 0) {
-        v_check(p, sp, 0); v_check(q, sq, 1); v_fin(p, 0); v_check(q, sq, 1); v_fin(q, 1); END();
+        v_check(p, sp, 0); v_check(q, sq, 1); lg_history_done(); v_fin(p, 0); v_check(q, sq, 1); v_fin(q, 1); END();
     } else {
-        u64 op = nd_idx(FLAV == 1 ? 3 : 5), st = nd_idx(2); PV y = nd_pv();
-        split<(FLAV == 1 ? 3 : 5)>(op, [&](u64 o) { split<2>(st, [&](u64 t) {
-            S a = sp, b = sq;
+        u64 op = (NSTEP == KSTEPS && FIRST >= 0) ? u64(FIRST) : nd_idx(FLAV == 1 ? 3 : 5), st = nd_idx(2); PV y = nd_pv();
+        auto next = [&](S const& a, S const& b) { v_check(p, a, 0); v_check(q, b, 1); v_hist<NSTEP - 1>(p, q, a, b); };
+        split_q<(FLAV == 1 ? 3 : 5)>(op, [&](u64 o) {
             switch (o) {
-            case 0: k_v_emplace(p, (unsigned)t, y); a = S{t, y}; break;
-            case 1: k_v_swap(p, q); a = sq; b = sp; break;
-            case 2: k_v_move_assign(p, q); a = sq; b.val = (FLAV != 2 && sq.idx < 2) ? PV(LG_MOVED_V) : sq.val; break;
-            case 3: { void* e = el_make((unsigned)t, y, 2); k_v_conv_assign_move(q, (unsigned)t, e, y); b = S{t, y}; el_fin(e, (unsigned)t, 2); break; }
-            case 4: k_v_copy_assign(q, p); b = sp; break;
-            default: { void* e = el_make((unsigned)t, y, 2); k_v_conv_assign(p, (unsigned)t, e, y); a = S{t, y}; el_fin(e, (unsigned)t, 2); break; }
+            case 0: split_q<2>(st, [&](u64 t) { k_v_emplace(p, (unsigned)t, y); next(S{t, y}, sq); }); break;
+            case 1: k_v_swap(p, q); next(sq, sp); break;
+            case 2: k_v_move_assign(p, q); next(sq, S{sq.idx, (FLAV != 2 && sq.idx < 2) ? PV(LG_MOVED_V) : sq.val}); break;
+            case 3: split_q<2>(st, [&](u64 t) { void* e = el_make((unsigned)t, y, 2); k_v_conv_assign_move(q, (unsigned)t, e, y); el_fin(e, (unsigned)t, 2); next(sp, S{t, y}); }); break;
+            case 4: k_v_copy_assign(q, p); next(sp, sp); break;
+            default: split_q<2>(st, [&](u64 t) { void* e = el_make((unsigned)t, y, 2); k_v_conv_assign(p, (unsigned)t, e, y); el_fin(e, (unsigned)t, 2); next(S{t, y}, sq); }); break;
             }
-            v_check(p, a, 0); v_check(q, b, 1);
-            v_hist<NSTEP - 1>(p, q, a, b);
-        }); });
+        });
     }
 }
 Q q_v_hist()
 {
-    u64 sa = nd_idx(2), sb = nd_idx(2); PV x = nd_pv(), y = nd_pv();
-    split<2>(sa, [&](u64 a) { split<2>(sb, [&](u64 b) { void* p = v_make(a, x, 0); void* q = v_make(b, y, 1); v_hist<KSTEPS>(p, q, S{a, x}, S{b, y}); }); });
+    u64 sa = HSA >= 0 ? u64(HSA) : nd_idx(2), sb = HSB >= 0 ? u64(HSB) : nd_idx(2); PV x = nd_pv(), y = nd_pv();
+    split_q<2>(sa, [&](u64 a) { split_q<2>(sb, [&](u64 b) { void* p = v_make(a, x, 0); void* q = v_make(b, y, 1); v_hist<KSTEPS>(p, q, S{a, x}, S{b, y}); }); });
 }
 template <int NSTEP>
 static void o_hist(void* p, void* q, S sp, S sq)
 {
     if constexpr (NSTEP == 0) {
-        o_check(p, sp, 0); o_check(q, sq, 1); o_fin(p, 0); o_check(q, sq, 1); o_fin(q, 1); END();
+        o_check(p, sp, 0); o_check(q, sq, 1); lg_history_done(); o_fin(p, 0); o_check(q, sq, 1); o_fin(q, 1); END();
     } else {
-        u64 op = nd_idx(FLAV == 1 ? 5 : 6), st = nd_idx(1); PV y = nd_pv();
-        split<(FLAV == 1 ? 5 : 6)>(op, [&](u64 o) { split<1>(st, [&](u64 t) {
-            S a = sp, b = sq;
+        u64 op = (NSTEP == KSTEPS && FIRST >= 0) ? u64(FIRST) : nd_idx(FLAV == 1 ? 5 : 6), st = nd_idx(1); PV y = nd_pv();
+        auto next = [&](S const& a, S const& b) { o_check(p, a, 0); o_check(q, b, 1); o_hist<NSTEP - 1>(p, q, a, b); };
+        split_q<(FLAV == 1 ? 5 : 6)>(op, [&](u64 o) {
             switch (o) {
-            case 0: k_o_emplace(p, y); a = S{1, y}; break;
-            case 1: k_o_reset(p); a.idx = 0; break;
-            case 2: k_o_swap(p, q); a = sq; b = sp; break;
-            case 3: k_o_move_assign(p, q); a = sq; if (FLAV != 2 && sq.idx) b.val = PV(LG_MOVED_V); break;
-            case 4: k_o_assign_src(q, y); b = S{1, y}; break;
-            case 5: k_o_assign_os_move(p, t != 0, y); a = S{t, y}; break;
-            default: k_o_copy_assign(q, p); b = sp; break;
+            case 0: k_o_emplace(p, y); next(S{1, y}, sq); break;
+            case 1: k_o_reset(p); next(S{0, sp.val}, sq); break;
+            case 2: k_o_swap(p, q); next(sq, sp); break;
+            case 3: k_o_move_assign(p, q); next(sq, S{sq.idx, (FLAV != 2 && sq.idx) ? PV(LG_MOVED_V) : sq.val}); break;
+            case 4: k_o_assign_src(q, y); next(sp, S{1, y}); break;
+            case 5: split_q<1>(st, [&](u64 t) { k_o_assign_os_move(p, t != 0, y); next(S{t, y}, sq); }); break;
+            default: k_o_copy_assign(q, p); next(sp, sp); break;
             }
-            o_check(p, a, 0); o_check(q, b, 1);
-            o_hist<NSTEP - 1>(p, q, a, b);
-        }); });
+        });
     }
 }
 Q q_o_hist()
 {
-    u64 sa = nd_idx(1), sb = nd_idx(1); PV x = nd_pv(), y = nd_pv();
-    split<1>(sa, [&](u64 a) { split<1>(sb, [&](u64 b) { void* p = o_make(a, x, 0); void* q = o_make(b, y, 1); o_hist<KSTEPS>(p, q, S{a, x}, S{b, y}); }); });
+    u64 sa = HSA >= 0 ? u64(HSA) : nd_idx(1), sb = HSB >= 0 ? u64(HSB) : nd_idx(1); PV x = nd_pv(), y = nd_pv();
+    split_q<1>(sa, [&](u64 a) { split_q<1>(sb, [&](u64 b) { void* p = o_make(a, x, 0); void* q = o_make(b, y, 1); o_hist<KSTEPS>(p, q, S{a, x}, S{b, y}); }); });
 }
